@@ -1,11 +1,12 @@
 """C04 - operations addressed to one bucket never change any other bucket."""
 S = "aw_datastore.storages.sqlite.SqliteStorage."
 D = "aw_datastore.datastore."
+MS = "aw_datastore.storages.memory.MemoryStorage."
 PROP = dict(
     id="C04",
     level="other",
-    contract_modules=["contracts.models", "contracts.sqlite", "contracts.datastore"],
-    spec_modules=["contracts.sqlite", "contracts.datastore"],
+    contract_modules=["contracts.models", "contracts.sqlite", "contracts.datastore", "contracts.memory"],
+    spec_modules=["contracts.sqlite", "contracts.datastore", "contracts.memory"],
     functions=[dict(fn=S + "delete", rt_skip=True),
                dict(fn=S + "replace", rt_skip=True),
                dict(fn=S + "replace_last", rt_skip=True),
@@ -21,12 +22,18 @@ PROP = dict(
                dict(fn=D + "Datastore.create_bucket", rt_skip=True),
                dict(fn=D + "Datastore.delete_bucket", rt_skip=True),
                dict(fn=D + "Datastore.__getitem__", rt_skip=True),
-               dict(fn=S + "buckets", rt_skip=True)],
+               dict(fn=S + "buckets", rt_skip=True),
+               dict(fn=MS + "delete", rt_skip=True),
+               dict(fn=MS + "replace", rt_skip=True),
+               dict(fn=MS + "replace_last", rt_skip=True),
+               dict(fn=MS + "insert_one", contract_key=MS + "insert_one:new", rt_skip=True),
+               dict(fn=MS + "create_bucket", rt_skip=True),
+               dict(fn=MS + "delete_bucket", rt_skip=True)],
     timeout_s=20,
     extra=[lambda run: run.storage_histories("C04")],
     technique="run-time refinement check of the real back ends against a reference list over random histories (bounded); "
               "with the sqlite methods proved against contracts over the table state (SQL text parsed from the source)",
-    explanation="deductive (sqlite): the postcondition of every write method quantifies over *all* event rows and *all* bucket rows: rows outside the addressed bucket (or, for bucket operations, other bucket rows and their events) are equal to their old value, for arbitrary ids and instants; the frame obligations additionally prove nothing outside the connection's tables and the storage's counters is written. The same frame statements are proved one level up for Bucket.* and Datastore.create_bucket / delete_bucket. " 
+    explanation="deductive (sqlite): the postcondition of every write method quantifies over *all* event rows and *all* bucket rows: rows outside the addressed bucket (or, for bucket operations, other bucket rows and their events) are equal to their old value, for arbitrary ids and instants; the frame obligations additionally prove nothing outside the connection's tables and the storage's counters is written. The same frame statements are proved one level up for Bucket.* and Datastore.create_bucket / delete_bucket. deductive (memory): every write method's frame is the list of the addressed bucket only (`self.db[bucket][]`): the frame obligations prove that no other list, no stored event of another bucket and no metadata entry is written. " 
                 "bounded: random multi-bucket histories including operations that pass ids of *another* bucket's events (replace, "
                 "insert with id, delete) and update/delete of buckets; after every operation every other bucket must read back exactly "
                 "as before (the addressed bucket is re-synchronised after such an operation: it may be affected or the call rejected).",
